@@ -138,6 +138,13 @@ def invalid_flags(argv):
 _MINIFY_DEFAULTS = {}
 
 
+def _load_minify_defaults(model):
+    _MINIFY_DEFAULTS.clear()
+    for p_, d_ in model.func('python_minifier.minify').defaults().items():
+        if isinstance(d_, ast.Constant):
+            _MINIFY_DEFAULTS[p_] = d_.value
+
+
 def compare_keywords(kw, want, ann):
     problems = []
     for p, v in want.items():
@@ -146,7 +153,8 @@ def compare_keywords(kw, want, ann):
             v = v or []
             if got is None and v == []:
                 continue
-            if not isinstance(got, (list, tuple)) or [x for x in got if x] != v:
+            # minify() uses the names as a set: order and repetition do not change what it returns
+            if not isinstance(got, (list, tuple, set, frozenset)) or {x for x in got if x} != set(v):
                 problems.append('%s=%r (documented meaning: %r)' % (p, got, v))
         elif got is not v:
             problems.append('%s=%r (documented meaning: %r)' % (p, got, v))
@@ -423,6 +431,32 @@ def run_modes(model, tier):
         label = '%s [%s]%s' % (mlabel, vec, ' override' if force else '')
         probs = judge_mode(label, sc, r, paths, output, in_place, targets, vec, force, texts, STDIN)
         results.append((label, sc, r, probs))
+    # "the complete minified module for those bytes" is what the API returns for the option values the flags mean: runs over several files with
+    # flags on the command line - every file of the run is minified with exactly those options (nothing one file or one option leaves behind
+    # reaches another)
+    _load_minify_defaults(model)
+    flag_sets = [['--rename-globals', '--preserve-globals', 'keepg,other', '--preserve-locals', 'keepl'], ['--preserve-globals', 'handler'], ['--preserve-locals', 'result', '--rename-globals'],
+                 ['--no-hoist-literals', '--remove-asserts']]
+    for (mlabel, paths) in (('directory --in-place', ['pkg']), ('two files --in-place', ['one.py', 'two.py']), ('file, directory, file --in-place', ['two.py', 'pkg', 'one.py'])):
+        for flags in flag_sets:
+            targets = _selected(paths, files, dirs)
+            answers = {files[t]: ('ok', 'm:' + t[-6:]) for t in targets}
+            sc = clirun.Scenario(list(paths) + ['--in-place'] + flags, files=dict(files), dirs=dirs, answers=answers, default_answer=('raise', 'AssertionError:unexpected-source'))
+            r = clirun.run(model, sc)
+            label = '%s with %s' % (mlabel, ' '.join(flags))
+            probs = []
+            want, ann, _master = expected_keywords(model, flags)
+            calls_ = r.events('minify')
+            if r.failed():
+                probs.append(Problem('failure', label, 'the run fails: %s' % (r.outcome,)))
+            elif len(calls_) != len(targets):
+                probs.append(Problem('selection', label, '%d sources are minified, %d are selected' % (len(calls_), len(targets))))
+            for k, ev in enumerate(calls_):
+                bad = compare_keywords(ev[2], want, ann)
+                if bad:
+                    probs.append(Problem('payload', label, 'source number %d of the run is minified with options the flags do not mean: %s' % (k + 1, '; '.join(bad[:3]))))
+                    break
+            results.append((label, sc, r, probs))
     # a directory that cannot be listed: the run must fail, not skip it silently
     for (mlabel, paths) in (('unlistable directory --in-place', ['pkg']), ('file, unlistable directory --in-place', ['one.py', 'pkg'])):
         answers = {content_: ('ok', 'm:' + p_[-6:]) for p_, content_ in files.items()}
@@ -442,8 +476,16 @@ def run_modes(model, tier):
              # sources in a declared single-byte encoding whose minified form (UTF-8) is not smaller: the bytes that were read are what is passed through
              ('x="\xe9\xe8\xe0\xfc\xf6\xe4\xdf\xe7"#....', b'# coding: latin-1\nx="\xe9\xe8\xe0\xfc\xf6\xe4\xdf\xe7"\n'), ('p="\u20ac\u20ac\u20ac\u20ac\u20ac\u20ac\u20ac\u20ac"', b'# coding: cp1252\np="\x80\x80\x80\x80\x80\x80\x80\x80"\n'),
              ('y="\xe9"*2#.......................', b'#!/bin/sh\n# -*- coding: iso-8859-15 -*-\ny="\xe9"*2\n'), ('z="\xe9\xe9\xe9\xe9\xe9\xe9\xe9\xe9\xe9\xe9\xe9\xe9\xe9"', b'\xef\xbb\xbf# coding: utf-8\nz="' + '\xe9'.encode('utf-8') * 13 + b'"')]
+    # the same relations at every scale: a rule that is exact for 3 bytes may round for 300 (percentages, kilobytes, floating point ratios)
+    for n in (99, 100, 101, 150, 199, 200, 201, 255, 256, 257, 999, 1000, 1001, 1023, 1024, 1025, 4096, 9999, 10000) + ((65535, 65536, 10 ** 6, 2 ** 24 + 1) if tier == 'thorough' else (65536,)):
+        for delta in (1, max(1, n // 200), max(1, n // 101), -1):
+            cases.append(('x' * (n + delta), b'y' * n))
+        cases.append(('\xe9' + 'x' * (n - 2), b'y' * n))         # n - 1 characters, n bytes: equal in bytes
+        cases.append(('\xe9' + 'x' * (n - 1), b'y' * n))         # n characters, n + 1 bytes: larger only in bytes
     for override in (None, '', '1'):
         for (text, source) in cases:
+            if override == '' and len(source) > 300:
+                continue
             sc = clirun.Scenario(['-'], stdin=source, env=({OVERRIDE: override} if override is not None else {}), answers={source: ('ok', text)})
             r = clirun.run(model, sc)
             enc = text.encode('utf-8')
